@@ -162,7 +162,7 @@ func callBuiltin(caller *frame, callpos token.Pos, fn *ssa.Builtin, args []value
 		panic("channels are not supported")
 
 	case "delete": // delete(map[K]value, K)
-		i.mapDelete(args[0].(*omap), i.concKey(args[1]))
+		i.mapDelete(args[0].(*omap), args[1])
 		return nil
 
 	case "clear":
